@@ -64,6 +64,11 @@ def report(ctx, prop, rej, files_of):
 
 def run(ctx):
     rnd = random.Random(ctx.seed)
+    # the reader at generator grain (spec/Readers.tla): several reader objects (own tables / the caller's pair), several
+    # listings alive on one reader, read in any order; design model-checked by Readers_MC, every next() by Readers_Val
+    from . import readers
+    readers.model_check(ctx, 'sharedDefaults')
+    readers.run_sessions(ctx, random.Random(ctx.seed + 91), 300 if ctx.quick else 6000, [2, 2, 3], 'rd', force_logs=False)
     ctx.expect_ok(run_tlc('Container_MC', MC_CFG % ((2, 1) if ctx.quick else (3, 2)), ctx.workdir, name='container',
                           timeout=7200))
     n = 600 if ctx.quick else 12000
